@@ -3,6 +3,7 @@ use crate::rng::Rng;
 use std::collections::{BTreeMap, HashSet};
 
 pub mod c12;
+pub mod lang;
 
 pub struct Case {
     pub line: String,
@@ -60,6 +61,7 @@ pub fn generate(prop: &str, tier: &str, g: &mut Gen) {
     let thorough = tier == "thorough";
     match prop {
         "C12" => c12::generate(g, thorough),
+        "C03" => lang::generate_c03(g, thorough),
         _ => {}
     }
 }
